@@ -445,11 +445,24 @@ def observe_written(spec):
                         err="%s: %s" % (type(e).__name__, str(e)[:120]))
         with open(path) as f:
             text = f.read()
+        # the same stack in a second mesh of its own, where nothing is deleted: deleting is a statement about ONE mesh
+        text2, err2 = None, None
+        try:
+            mesh2 = cb.Mesh()
+            mesh2.add(stack)
+            with warnings.catch_warnings():
+                warnings.simplefilter("ignore")
+                mesh2.write(path, debug_path=None)
+            with open(path) as f:
+                text2 = f.read()
+        except Exception as e:  # noqa: BLE001
+            err2 = "%s: %s" % (type(e).__name__, str(e)[:120])
     finally:
         os.remove(path)
     wcells = parse_written(text, lat)
     return dict(err=None, n=len(stack.operations), deleted=deleted[0] if len(deleted) == 1 else 9999, cells=wcells,
-                ids=[cell_id.get(tuple(c), 9999) for c in wcells])
+                ids=[cell_id.get(tuple(c), 9999) for c in wcells],
+                cells2=parse_written(text2, lat) if text2 is not None else None, err2=err2)
 
 
 def oracle_written(spec, ob):
@@ -465,6 +478,14 @@ def oracle_written(spec, ob):
         return ["after delete(grid[%d][%d][%d]) the written file does not hold exactly the cells other than (%d,%d,%d): "
                 "missing %r, unexpected %r" % (spec["delete"][2], spec["delete"][1], spec["delete"][0], *spec["delete"],
                                                missing[:6], extra[:6])]
+    if ob.get("err2"):
+        return ["a second mesh of the same stack (nothing deleted there) cannot be written: %s" % ob["err2"]]
+    if ob.get("cells2") is not None:
+        full = sorted((i, j, k) for i in range(nx) for j in range(ny) for k in range(nz))
+        got2 = sorted(tuple(c) for c in ob["cells2"])
+        if got2 != full:
+            return ["a second mesh of the same stack, in which nothing was deleted, lacks the cells %r (deleted in the FIRST mesh: "
+                    "(%d,%d,%d)); unexpected %r" % (sorted(set(full) - set(got2))[:6], *spec["delete"], sorted(set(got2) - set(full))[:6])]
     return []
 
 
